@@ -55,6 +55,8 @@ type lcClient struct {
 	offClosed map[net.Conn]bool
 	ReqSeen  []time.Duration
 	natSids  int
+	SilentUnknown bool // work connections for proxies this client did not record are drained silently
+	WorkFrames []RecvMsg // first frame received on each work connection
 }
 
 const (
@@ -147,6 +149,11 @@ func (c *lcClient) serveWork(alive bool) {
 
 func (c *lcClient) runWork(conn net.Conn) {
 	typ0, body0, err := readFrame(conn)
+	if err == nil {
+		c.smu.Lock()
+		c.WorkFrames = append(c.WorkFrames, RecvMsg{Type: typ0, Body: body0, At: c.w.Net.Now()})
+		c.smu.Unlock()
+	}
 	if err == nil && typ0 == tNatHoleSid {
 		// an xtcp proxy's owner is handed a session id over a work connection
 		c.smu.Lock()
@@ -176,8 +183,11 @@ func (c *lcClient) runWork(conn net.Conn) {
 	}
 	c.smu.Lock()
 	c.Starts = append(c.Starts, rec)
-	typ := c.ptypes[name]
+	typ, known := c.ptypes[name]
 	c.smu.Unlock()
+	if !known && c.SilentUnknown {
+		typ = "udp" // a proxy this client never recorded (raw barrage traffic): stay silent and drain
+	}
 	if e := mstr(st, "error"); e != "" {
 		conn.Close()
 		return
